@@ -1187,7 +1187,7 @@ func c19Child(rec *kit.Rec) {
 					t0 := time.Now()
 					w.doOp(key, r)
 					t1 := time.Now()
-					if cfg.Mode == "explicit" && r.IntN(12) == 0 {
+					if cfg.Mode == "explicit" && r.IntN(20) == 0 {
 						w.keyCheck(key)
 					}
 					w.nsOps.Add(int64(t1.Sub(t0)))
@@ -1381,7 +1381,7 @@ func TestVerif_C19(t *testing.T) {
 		runs = v
 		first, _ = strconv.Atoi(os.Getenv("C19_FIRST"))
 	}
-	par := 5
+	par := 6
 	sem := make(chan struct{}, par)
 	var wg sync.WaitGroup
 	var mu sync.Mutex
